@@ -15,8 +15,12 @@ func suiteC20(r *Run) {
 	for i := 0; i < n; i++ {
 		kind := []string{"cstream", "bidi", "sstream"}[i%3]
 		o := isOpts{steps: 6 + rng.Intn(8), allowCancel: false}
-		mode := i % 6
+		mode := i % 7 // (7 modes x 3 kinds: every mode meets every kind)
 		switch mode {
+		case 6:
+			// the handler receives a few messages while the client keeps sending, then stalls
+			o.sendHeavy, o.noClientRecv = true, true
+			o.steps = 10 + rng.Intn(10)
 		case 0:
 			o.noServerRecv, o.sendHeavy = true, true
 		case 1:
